@@ -684,3 +684,6 @@ def run(c, facts):
     c.run(r4_err_disc, facts)
     c.run(r5_pipe_agree, facts)
     c.run(r6_loader_text, facts)
+
+
+EXPLANATION += ' (R21) EVERY-ERROR (C15.R19 run here): every error logged by the load or the evaluation of a folder becomes a published diagnostic.'
